@@ -53,6 +53,8 @@ class Cfg:
         self.at_on_call = False              # (at (f ..) i): array operand that is neither a variable nor a literal
         self.for_bound_mutated = False       # a for loop whose body assigns a variable its range bound reads
         self.literal_first_effect = True     # a call as FIRST element of an array literal (the compile-time evaluator evaluates it twice)
+        self.reuse_names_across_fns = False  # locals / parameters / loop variables of a function re-use names that EARLIER functions bound
+                                             # (with another mutability or type where possible); scoping is per function, so this is well-typed
         self.__dict__.update(kw)
 
 
@@ -70,6 +72,45 @@ class Gen:
         n = self.next_name
         self.next_name += 1
         return n
+
+    def fresh_var(self, ty=None, mut=None):
+        """name for a new local binding: fresh, or (Cfg.reuse_names_across_fns) a name that an EARLIER function bound and that is bound
+        nowhere in the current function and is no global -- preferring one whose earlier binding had another mutability / type.
+        With the flag off no random number is drawn, so the stream of every other consumer is unchanged."""
+        if self.c.reuse_names_across_fns and getattr(self, 'prev_decls', None) and self.r.random() < 0.6:
+            cur = getattr(self, 'cur_names', set())
+            cand = [d for d in self.prev_decls if d[0] not in cur and d[0] not in getattr(self, 'global_names', ())]
+            if cand:
+                diff = [d for d in cand if (mut is not None and d[2] != mut) or (ty is not None and d[1] != ty)]
+                x = self.r.choice(diff or cand)[0]
+                self.f('name_reuse_across_fns')
+                self.cur_names.add(x)
+                return x
+        x = self.fresh()
+        if self.c.reuse_names_across_fns:
+            self.__dict__.setdefault('cur_names', set()).add(x)
+        return x
+
+    def note_decl(self, x, ty, mut):
+        """remember what the current function bound (only used by reuse_names_across_fns)"""
+        if not self.c.reuse_names_across_fns:
+            return
+        for (y, t, m) in getattr(self, 'prev_decls', []):
+            if y == x:
+                if m != mut:
+                    self.f('name_reuse_other_mutability' + ('_now_immutable' if m else '_now_mutable'))
+                if t != ty:
+                    self.f('name_reuse_other_type')
+                break
+        self.__dict__.setdefault('cur_decls', []).append((x, ty, mut))
+
+    def begin_fn(self):
+        self.cur_names = set()
+        self.cur_decls = []
+
+    def end_fn(self):
+        if self.c.reuse_names_across_fns:
+            self.prev_decls = getattr(self, 'prev_decls', []) + self.cur_decls
 
     # ---------------------------------------------------------------- expressions
     def lit(self, ty):
@@ -291,15 +332,16 @@ class Gen:
                     if mentions(e, x) and not self.c.self_ref_shadow:
                         e = self.lit(ty)
                 else:
-                    x = self.fresh()
+                    x = self.fresh_var(ty)
             else:
-                x = self.fresh()
+                x = self.fresh_var(ty)
             mut = r.random() < 0.5
             if self.c.shadow_same_mut:
                 prev = [m for (y, t, m) in sc['vars'] if y == x]
                 if prev:
                     mut = prev[-1]       # the type checker never pops block scopes: a later `set` would see this binding
             sc['vars'].append((x, ty, mut))
+            self.note_decl(x, ty, mut)
             if self.c.arrays:
                 al = sc.setdefault('alen', {})
                 if ty == 'arr' and not mut and e[0] == 'arr':
@@ -335,7 +377,8 @@ class Gen:
             return ('if', c, s1, s2)
         if k < 0.76 and depth > 0:
             # counter-driven while: let mut c = 0  while (< c K) { set c (+ c 1) ... }
-            cvar = self.fresh()
+            cvar = self.fresh_var('int', True)
+            self.note_decl(cvar, 'int', True)
             K = r.randrange(1, 5)
             sub = dict(sc, vars=sc['vars'] + [(cvar, 'int', True)], depth=sc.get('depth', 0) + 1,
                        frozen=tuple(sc.get('frozen', ())) + (cvar,))
@@ -357,13 +400,15 @@ class Gen:
             if avars and r.random() < 0.7:
                 a = r.choice(avars)
             else:
-                a = self.fresh()
+                a = self.fresh_var('arr', False)
+                self.note_decl(a, 'arr', False)
                 lit = self.gen_arr_literal(2, sc)
                 pre = [('let', False, a, 'arr', lit)]
                 sc['vars'].append((a, 'arr', False))
                 sc.setdefault('alen', {})[a] = len(lit[1])
                 sc.setdefault('declared_here', set()).add(a)
-            x = self.fresh()
+            x = self.fresh_var('int', False)
+            self.note_decl(x, 'int', False)
             sub = dict(sc, vars=sc['vars'] + [(x, 'int', False)], depth=sc.get('depth', 0) + 1)
             amut = any(m for (y, t, m) in sc['vars'] if y == a)
             if amut and self.c.for_bound_mutated:
@@ -375,7 +420,8 @@ class Gen:
             loop = ('for', x, ('num', 0), ('len', ('var', a)), self.seq([('print', True, ('at', ('var', a), ('var', x))), body]))
             return self.seq(pre + [loop])
         if k < 0.84 and depth > 0:
-            x = self.fresh()
+            x = self.fresh_var('int', False)
+            self.note_decl(x, 'int', False)
             lo = r.randrange(-2, 3)
             hi = lo + r.randrange(0, 5)
             sub = dict(sc, vars=sc['vars'] + [(x, 'int', False)], depth=sc.get('depth', 0) + 1)
@@ -427,13 +473,15 @@ class Gen:
                     ty = 'arr'
                 e = self.gen_expr(ty, 1, dict(sc, vars=[(x, t, False) for (x, t) in sc['globals']]), pure=True)
                 prog['globals'].append((g, ty, e))
+                self.__dict__.setdefault('global_names', set()).add(g)
                 sc['globals'].append((g, ty))
                 self.f('global')
         nf = r.randrange(0, self.c.max_fns + 1)
         for i in range(nf):
             name = self.fresh()
+            self.begin_fn()
             kind = r.random()
-            params = [(self.fresh(), r.choice(['int', 'int', 'bool'])) for _ in range(r.randrange(0, 4))]
+            params = [(self.fresh_var(None, False), r.choice(['int', 'int', 'bool'])) for _ in range(r.randrange(0, 4))]
             if self.c.arrays:
                 params = [(x, 'arr' if r.random() < 0.25 else t) for (x, t) in params]
             if kind < 0.3:
@@ -449,7 +497,7 @@ class Gen:
                 self.f('effect_fn')
             elif kind < 0.45 and self.c.recursion:
                 # structurally decreasing recursion on the first parameter, clamped
-                n = self.fresh()
+                n = self.fresh_var('int', False)
                 params = [(n, 'int')] + params[:1]
                 fsc = dict(sc, vars=[(x, t, False) for (x, t) in params])
                 rec_args = [('bin', 'sub', ('var', n), ('num', 1))] + [('var', x) for (x, t) in params[1:]]
@@ -469,9 +517,13 @@ class Gen:
                 fin = ('ret', None) if ret == 'void' else ('ret', self.gen_expr(ret, 2, fsc, pure=False))
                 body = self.seq([stmts, fin])
                 fd = dict(name=name, params=params, ret=ret, body=body, effect=stmt_has_effect(body, sc['fns_by_name']))
+            for (x, t) in fd['params']:
+                self.note_decl(x, t, False)
+            self.end_fn()
             prog['fns'].append(fd)
             sc['fns'] = sc['fns'] + [fd]
             sc['fns_by_name'] = dict(list(sc['fns_by_name'].items()) + [(name, fd)])
+        self.begin_fn()
         msc = dict(sc, vars=[(g, t, False) for (g, t) in sc['globals']])
         stmts = self.gen_block(msc, self.c.max_depth, r.randrange(2, self.c.max_stmts + 3), None, 'int')
         body = self.seq([stmts, ('ret', ('num', r.choice([0, 0, 1, 3, 7, 42, 255])))])
